@@ -47,7 +47,18 @@ pub fn mmap(ctx: &Ctx) -> Stats {
         let delim = DELIMS[(i as usize) % DELIMS.len()];
         let cfg = OligoCfg { k, threads: rng.usize(1, 16), memory: 4 << 30, header: rng.chance(1, 2), delim: delim.to_string(), norm: true, writer: Writer::Mmap };
         let sc = Scratch::new(ctx, "c14m");
-        let inp = write_input(&sc, "in", &recs, &Container::FastaSingle, None, &mut rng);
+        // the size of the mapping comes from a first pass over the input: every container the reader accepts
+        let fastq_ok = !recs.is_empty() && recs.iter().all(|r| !r.seq.is_empty());
+        let cont = match rng.below(6) {
+            0 => Container::FastaWrapped(rng.usize(1, 70)),
+            1 => Container::FastaCrlf,
+            2 if fastq_ok => Container::Fastq,
+            3 if fastq_ok => Container::FastqWrapped(rng.usize(1, 50)),
+            _ => Container::FastaSingle,
+        };
+        st.class(&cont.name().split('(').next().unwrap().to_string());
+        let gz = if rng.chance(1, 5) { Some(refmodel::ser::GzLayout::Multi(rng.usize(2, 4))) } else { None };
+        let inp = write_input(&sc, "in", &recs, &cont, gz.as_ref(), &mut rng);
         let outp = sc.path("out.kmers");
         let mode = if i % 3 == 0 { Mode::Perturbed { seed: rng.next_u64(), max_us: 50 } } else { Mode::Log };
         let ctl = Controller::new(mode, cfg.threads, "oligo.took", "oligo.exit", vec![]);
